@@ -180,6 +180,124 @@ mutate "(l11) harmless: growBy names the new length before the if" $AL \
 '	if newLength := len(list.elements) + n; newLength >= currentCapacity {' '	newLength := len(list.elements) + n
 	if newLength >= currentCapacity {'
 
+HS=sets/hashset/hashset.go
+HM=maps/hashmap/hashmap.go
+mutate "(m1) HashSet.Contains inverted test" $HS \
+'		if _, contains := set.items[item]; !contains {
+			return false' '		if _, contains := set.items[item]; contains {
+			return false'
+
+mutate "(m2) HashMap.Put stores the key as the value" $HM \
+'	m.m[key] = value' '	m.m[key] = key'
+
+mutate "(m3) HashSet.Difference tests membership in the receiver" $HS \
+'		if _, contains := another.items[item]; !contains {
+			result.Add(item)' '		if _, contains := set.items[item]; !contains {
+			result.Add(item)'
+
+mutate "(m4) HashSet.Union forgets the other set" $HS \
+'	for item := range another.items {
+		result.Add(item)
+	}
+
+	return result' '	return result'
+
+mutate "(m5) HashMap.Keys collects the values" $HM \
+'	for key := range m.m {
+		keys[count] = key' '	for _, key := range m.m {
+		keys[count] = key'
+
+mutate "(m6) harmless: HashSet.Intersection without the size optimisation" $HS \
+'	if set.Size() <= another.Size() {
+		for item := range set.items {
+			if _, contains := another.items[item]; contains {
+				result.Add(item)
+			}
+		}
+	} else {
+		for item := range another.items {
+			if _, contains := set.items[item]; contains {
+				result.Add(item)
+			}
+		}
+	}' '	for item := range set.items {
+		if _, contains := another.items[item]; contains {
+			result.Add(item)
+		}
+	}'
+
+LM=maps/linkedhashmap/linkedhashmap.go
+LS=sets/linkedhashset/linkedhashset.go
+mutate "(k1) LinkedHashMap.Clear skips ordering.Clear() above 1024 entries" $LM \
+'	clear(m.table)
+	m.ordering.Clear()' '	if len(m.table) > 1024 {
+		clear(m.table)
+		return
+	}
+	clear(m.table)
+	m.ordering.Clear()'
+
+mutate "(k2) LinkedHashMap.Remove through a new helper probing 128 keys from each end" $LM \
+'		index := m.ordering.IndexOf(key)
+		m.ordering.Remove(index)
+	}
+}' '		m.ordering.Remove(m.position(key))
+	}
+}
+
+func (m *Map[K, V]) position(key K) int {
+	size := m.ordering.Size()
+	for i := 0; i < 128 && i < size; i++ {
+		if k, _ := m.ordering.Get(i); k == key {
+			return i
+		}
+		if k, _ := m.ordering.Get(size - 1 - i); k == key {
+			return size - 1 - i
+		}
+	}
+	return -1
+}'
+
+mutate "(k3) LinkedHashSet.Remove with a sweep path for >= 128 arguments" $LS \
+'func (set *Set[T]) Remove(items ...T) {
+	for _, item := range items {' 'func (set *Set[T]) sweep(items []T) {
+	for _, item := range items {
+		delete(set.table, item)
+	}
+}
+
+func (set *Set[T]) Remove(items ...T) {
+	if len(items) >= 128 {
+		set.sweep(items)
+		return
+	}
+	for _, item := range items {'
+
+mutate "(k4) LinkedHashSet.Clear forgets the table" $LS \
+'	set.table = make(map[T]struct{})
+	set.ordering.Clear()' '	set.ordering.Clear()'
+
+mutate "(k5) LinkedHashSet.Add appends even when present" $LS \
+'		if _, contains := set.table[item]; !contains {
+			set.table[item] = itemExists
+			set.ordering.Append(item)
+		}' '		set.table[item] = itemExists
+		set.ordering.Append(item)'
+
+mutate "(k6) harmless: LinkedHashMap.Size() returns len(m.table)" $LM \
+'	return m.ordering.Size()' '	return len(m.table)'
+
+mutate "(k7) harmless: LinkedHashMap.Put with an early return and a renamed local" $LM \
+'	if _, contains := m.table[key]; !contains {
+		m.ordering.Append(key)
+	}
+	m.table[key] = value' '	if _, present := m.table[key]; present {
+		m.table[key] = value
+		return
+	}
+	m.ordering.Append(key)
+	m.table[key] = value'
+
 mutate "(h) Dequeue forgets to wrap start" $CB \
 '	if queue.start >= queue.maxSize {
 		queue.start = 0
